@@ -436,6 +436,7 @@ def numeric_facts(v0, v1, sim0, sim1, env) -> Dict[str, Any]:
         "gain_neg": bool(d_gain < 0),
         "en_down": bool(d_en < 0),
         "en_up": bool(d_en > 0),
+        "odo_up": bool(d_odo > 0),
         "was_empty": bool(v0.energy[et] <= 0),
         "acct_ok": bool(abs(d_en - (d_gain - d_spent)) <= 1e-9 * max(1.0, abs(v1.energy[et]))),
         "gain_le_plug": True,
